@@ -14,3 +14,44 @@ package rr
 //@   loop 0 invariant 0 <= i && i <= n
 //@   loop 0 step [C10.coeff-bounds] 0 <= runoff.at(i) && runoff.at(i) <= rainfall.at(i)
 //@   loop 0 step [C10.coeff-def] runoff.at(i) == coeff * rainfall.at(i)
+
+// ---- Simhyd (C10): stores within bounds, non-negative components that add up,
+// and per-timestep water balance  rain - runoff - pf*(dS + dGW) = ET >= 0 ----
+
+//@ func simhyd(rainfall, pet, initialStore, initialGW, initialTotalStore, baseflowCoefficient, imperviousThreshold, infiltrationCoefficient, infiltrationShape, interflowCoefficient, perviousFraction, risc, rechargeCoefficient, smsc, runoff, quickflow, baseflow, store) returns (rS, rGW, rTotal)
+//@   noalias
+//@   safety C10
+//@   requires rainfall.len == pet.len && rainfall.len == runoff.len && rainfall.len == quickflow.len && rainfall.len == baseflow.len && rainfall.len == store.len
+//@   requires forall(k, 0, rainfall.len, rainfall.at(k) >= 0 && pet.at(k) >= 0)
+//@   requires 0 <= baseflowCoefficient && baseflowCoefficient <= 1 && imperviousThreshold >= 0 && infiltrationCoefficient >= 0 && infiltrationShape >= 0
+//@   requires 0 <= interflowCoefficient && interflowCoefficient <= 1 && 0 <= perviousFraction && perviousFraction <= 1 && risc >= 0
+//@   requires 0 <= rechargeCoefficient && rechargeCoefficient <= 1 && smsc > 0
+//@   requires 0 <= initialStore && initialStore <= smsc && initialGW >= 0
+//@   assigns runoff.cells, quickflow.cells, baseflow.cells, store.cells
+//@   loop 0 invariant 0 <= i && i <= nDays
+//@   loop 0 invariant implies(i < nDays, rainfall.at(i) >= 0 && pet.at(i) >= 0)
+//@   loop 0 invariant [C10.simhyd-stores] 0 <= soilMoistureStore && soilMoistureStore <= smsc && gw >= 0
+//@   loop 0 step [C10.simhyd-nonneg] runoff.at(i) >= 0 && quickflow.at(i) >= 0 && baseflow.at(i) >= 0 && store.at(i) >= 0
+//@   loop 0 step [C10.simhyd-sum] runoff.at(i) == quickflow.at(i) + baseflow.at(i)
+//@   loop 0 step [C10.simhyd-balance] rainfall.at(i) - runoff.at(i) - perviousFraction*((post(soilMoistureStore) - pre(soilMoistureStore)) + (post(gw) - pre(gw))) >= 0
+//@   loop 0 step [C10.simhyd-store-out] store.at(i) == post(soilMoistureStore)
+//@   ensures [C10.simhyd-final-stores] 0 <= rS && rS <= smsc && rGW >= 0
+
+// ---- Surm (C10) ----
+
+//@ func surm(rainfall, pet, initialStore, initialGW, initialTotalStore, bfac, coeff, dseep, fcFrac, fimp, rfac, smax, sq, thres, runoffTS, quickflowTS, baseflowTS, storeTS) returns (rS, rGW, rTotal)
+//@   noalias
+//@   safety C10
+//@   requires rainfall.len == pet.len && rainfall.len == runoffTS.len && rainfall.len == quickflowTS.len && rainfall.len == baseflowTS.len && rainfall.len == storeTS.len
+//@   requires forall(k, 0, rainfall.len, rainfall.at(k) >= 0 && pet.at(k) >= 0)
+//@   requires 0 <= bfac && bfac <= 1 && coeff >= 0 && 0 <= dseep && dseep <= 1 && 0 <= fcFrac && fcFrac <= 1
+//@   requires 0 <= fimp && fimp <= 1 && 0 <= rfac && rfac <= 1 && smax > 0 && sq >= 0 && thres >= 0
+//@   requires 0 <= initialStore && initialStore <= smax && initialGW >= 0
+//@   assigns runoffTS.cells, quickflowTS.cells, baseflowTS.cells, storeTS.cells
+//@   loop 0 invariant 0 <= i && i <= nTimesteps
+//@   loop 0 invariant implies(i < nTimesteps, rainfall.at(i) >= 0 && pet.at(i) >= 0)
+//@   loop 0 invariant [C10.surm-stores] 0 <= soilMoistureStore && soilMoistureStore <= smax && gw >= 0
+//@   loop 0 step [C10.surm-nonneg] runoffTS.at(i) >= 0 && quickflowTS.at(i) >= 0 && baseflowTS.at(i) >= 0 && storeTS.at(i) >= 0
+//@   loop 0 step [C10.surm-sum] runoffTS.at(i) == quickflowTS.at(i) + baseflowTS.at(i)
+//@   loop 0 step [C10.surm-balance] rainfall.at(i) - runoffTS.at(i) - (1 - fimp)*((post(soilMoistureStore) - pre(soilMoistureStore)) + (post(gw) - pre(gw))) >= 0
+//@   ensures [C10.surm-final-stores] 0 <= rS && rS <= smax && rGW >= 0
